@@ -392,17 +392,10 @@ func TestVerifC18(t *testing.T) {
 	hostile := []uint32{0, 1, 2, 3, 4, 5, 6, 7, 0x7fffffff, 0x80000000, 0xffffffff, 0xfffffff8, 0xfffffff0, 0xffffff00}
 	base := vfBuild([]vfBox{{"styp", 4}, {"moof", 8}, {"mdat", 5}, {"moof", 4}, {"mdat", 3}}, 7)
 	offs := []int{0, 12, 28, 41, 53}
-	rel := []int{0, 12, 28, 0, 12} // offset relative to the end of the previous mdat (what the parser's 32-bit offset counts)
-	for oi, o := range offs {
+	for _, o := range offs {
 		for _, hz := range hostile {
 			d := append([]byte{}, base...)
 			d[o], d[o+1], d[o+2], d[o+3] = byte(hz>>24), byte(hz>>16), byte(hz>>8), byte(hz)
-			if hz >= 8 && uint64(rel[oi])+uint64(hz) < 1<<32 && hz > 1<<20 {
-				// a believable-but-huge size makes the parser allocate that much (2-4 GB): it terminates at EOF, but it is
-				// outside the memory discipline of this harness; sizes that wrap the 32-bit offset need no allocation and are driven
-				r.Add("skipped_huge_allocation_cases", 1)
-				continue
-			}
 			run(vfCase{fmt.Sprintf("hostile-size@%d=%#x", o, hz), d, nil, false, 64, -1, -1}, "hostile-size", fmt.Sprintf("size=%#x", hz))
 		}
 	}
